@@ -16,9 +16,27 @@ Import ListNotations.
 
 Definition G : prim := PGet.
 Definition St (v : string) : prim := PSet (unhex v).
-Definition Ic : prim := PIncr.
+Definition Ic : prim := PIncrBy 1.
+Definition Ib (z : Z) : prim := PIncrBy z.              (* INCRBY z; DECR = Ib (-1); DECRBY n = Ib (-n) *)
 Definition Ap (v : string) : prim := PAppend (unhex v).
 Definition Dl : prim := PDel.
+Definition Nx (v : string) : prim := PSetNx (unhex v).
+Definition So (v : string) (nx xx get : bool) : prim := PSetOpt (unhex v) nx xx get.
+Definition Gs (v : string) : prim := PGetSet (unhex v).
+Definition Gd : prim := PGetDel.
+Definition Sr (off : nat) (v : string) : prim := PSetRange off (unhex v).
+Definition Ex : prim := PExists.
+Definition Lp (v : string) : prim := PLPush (unhex v).
+Definition Rp (v : string) : prim := PRPush (unhex v).
+Definition Lo : prim := PLPop.
+Definition Ro : prim := PRPop.
+Definition Lr : prim := PLRange.
+Definition Sa (v : string) : prim := PSAdd (unhex v).
+Definition Sm (v : string) : prim := PSRem (unhex v).
+Definition Ms : prim := PSMembers.
+Definition Hs (f v : string) : prim := PHSet (unhex f) (unhex v).
+Definition Hd (f : string) : prim := PHDel (unhex f).
+Definition Ha : prim := PHGetAll.
 
 Definition V0 : prep := RVal None.
 Definition Vs (v : string) : prep := RVal (Some (unhex v)).
@@ -26,21 +44,34 @@ Definition OK : prep := ROk.
 Definition Ni (z : Z) : prep := RInt z.
 Definition ENI : prep := RErrNotInt.
 Definition EOV : prep := RErrOverflow.
+Definition EWT : prep := RWrongType.
+Definition Ar (l : list string) : prep := RArr (map unhex l).
 Definition EX (t : string) : prep := ROther (unhex t).
+
+(* value of the key at the barrier *)
+Inductive kinit := I0 | IS (v : string) | IL (l : list string) | IT (l : list string)
+                 | IH (l : list (string * string)).
+Definition kinit_state (i : kinit) : kst :=
+  match i with
+  | I0 => KNone
+  | IS v => KStr (unhex v)
+  | IL l => klist (map unhex l)
+  | IT l => kset (map unhex l)
+  | IH l => khash (map (fun p => (unhex (fst p), unhex (snd p))) l)
+  end.
 
 (* completed operation: id, invocation stamp, response stamp, primitives, replies *)
 Definition Oc (id inv ret : nat) (ops : list prim) (reps : list prep) : oprec (list prim) (list prep) :=
   OpRec id inv (Some ret) ops reps.
 
 Record window := W2 {
-  w_init : option string;                           (* value at the barrier; None = absent *)
+  w_init : kinit;                                   (* value at the barrier; I0 = absent *)
   w_ops : list (oprec (list prim) (list prep));
   w_impl_verdict : bool                             (* the harness's own checker *)
 }.
 Record case2 := K2 { k_windows : list window }.
 
-Definition w_state (w : window) : option (list N) :=
-  match w_init w with Some s => Some (unhex s) | None => None end.
+Definition w_state (w : window) : kst := kinit_state (w_init w).
 
 Definition stamps_ok (w : window) : bool :=
   forallb (fun o => match o_ret o with Some r => Nat.ltb (o_inv o) r | None => false end) (w_ops w).
